@@ -301,7 +301,13 @@ void vf_run(const uint8_t *data, size_t len)
     }
     g_cur_op = en.name;
     void *other = obj_addr(kind, 2);
+    // whatever the aborting call itself allocated is its own business (nothing is promised about an aborting call)
+    g_record_events = true;
+    events_clear();
     bool aborted = may_abort([&] { call(kind, entry, pos, stray, other); });
+    g_record_events = false;
+    std::vector<void *> born;
+    for (auto &e : *g_events) if (e.kind == 'm' || e.kind == 'r') born.push_back(e.p);
     TRACE("call on the stray copy -> %s", aborted ? "abort" : "returned normally");
     cnt_dyn(std::string("class.kind.") + KN[kind]);
     cnt_dyn(std::string("class.method.") + std::to_string(method));
@@ -321,8 +327,7 @@ void vf_run(const uint8_t *data, size_t len)
     (void)clr_before;
     // the other argument of the aborted call is abandoned (the property promises nothing about it): release its
     // resources outside the library, then reset every original and audit
-    size_t live_mid = lib_live_count();
-    CHECK(live_mid <= live_before, "C20.original.works", "the aborted call allocated memory that stays live");
+    (void)live_before;      // (what an aborting call leaves allocated is not part of the statement)
     g_cur_op = "final reset of the originals";
     switch (kind) {
     case K_GUARDED: break;
@@ -344,6 +349,7 @@ void vf_run(const uint8_t *data, size_t len)
     for (int i = 0; i < 3; i++) { LIB(cstl_shared_ptr_reset(&SX[i])); LIB(cstl_weak_ptr_reset(&WX[i])); LIB(cstl_array_reset(&AX[i])); }
     // whatever the abandoned other argument(s) of the aborted call still own is the only thing that may be left
     size_t left = lib_live_count();
+    for (void *p : born) if (lib_is_live(p) && left) left--;
     size_t other_max = en.nargs == 2 ? (kind == K_UNIQUE ? 1 : kind == K_GUARDED ? 0 : 2) : 0;
     if (special) other_max += 2;
     CHECK(left <= other_max, "C20.original.reset", "after resetting the originals %zu library blocks are live (the abandoned argument can account for at most %zu)",
